@@ -483,7 +483,8 @@ def hsnap(s: dict) -> tuple[int, int]:
 
 def enc_event(e: dict) -> list[int]:
     s = e["snap"]
-    return [0 if e["k"] == "enter" else 1, ACTION_CODE[e["action"]] if e["k"] == "enter" else 9, s["depth"], e["nest"],
+    depth = s["depth"] if s["depth"] >= 0 else 10 ** 9 - s["depth"]   # (a negative depth cannot be written in N)
+    return [0 if e["k"] == "enter" else 1, ACTION_CODE[e["action"]] if e["k"] == "enter" else 9, depth, e["nest"],
             s["ncyc"], s["lcyc"], 1 if s["flag"] else 0, s["nexc"], len(s["stack"]), len(s["states"]),
             len(s["parsed"]), *hsnap(s)]
 
